@@ -149,3 +149,92 @@ for _n in (1, 2, 3):
             prods = [l for l in layers if S.cls_is(vc, l, "ProductLayer")]
             vc.ensure("product_over_all_inputs", len(prods) == 1 and len(ins.get(prods[0], [])) == _n and outs == prods)
     obligation(f"C20.fully_factorized.n{_n}", "C20", [f"{PG}:fully_factorized"])(_h)
+
+
+# ------------------------------------------------------------------------------------------------ tensor_train (structure)
+for _n in (2, 3, 4, 5):
+    for _r in (1, 2, 3):
+        def _h(vc, _n=_n, _r=_r):
+            """TT / MPS: T[x_0..x_{n-1}] = sum over r_1..r_{n-1} of V0[x_0, r_1] V1[r_1, x_1, r_2] ... V_{n-1}[r_{n-1}, x_{n-1}].  Contraction step i
+            (i = 0 .. n-2) multiplies the running vector with the embeddings of VARIABLE i+1 - `rank` embeddings of `rank` units and shape[i+1]
+            states for an inner variable (one per value of the next bond index), one for the last - and sums with the constant block-diagonal /
+            all-ones matrix.  The rank is concrete (it is a loop bound), dimensions are symbolic; the constant matrices (numpy / scipy) are
+            opaque here: their values are checked by the bounded stand-in."""
+            from engine.values import Opaque
+            shape = tuple(vc.int(f"d{j}", lo=2) for j in range(_n))       # (a mode of size 1 is refused by the embedding layer: ValueError)
+            made = []
+
+            class NpConst:
+                """a numpy float array of which only the shape is observable (assumed contract of np.ones / scipy.linalg.block_diag)"""
+
+                def __init__(self, shp):
+                    self.shp = tuple(shp)
+
+                def __vf_getattr__(self, I, name):
+                    from engine.values import ExternalVal
+                    if name == "shape":
+                        return self.shp
+                    if name == "ndim":
+                        return len(self.shp)
+                    if name == "dtype":
+                        return Opaque("np_dtype", {"type": ExternalVal("numpy.float64")})
+                    from engine.interp import Unsupported
+                    raise Unsupported(f"ndarray.{name}")
+
+                def __vf_isinstance__(self, I, t):
+                    return getattr(t, "name", getattr(t, "dotted", "")).split(".")[-1] == "ndarray"
+
+            def const(name):
+                def f(I, a, k):
+                    if name == "ones":
+                        o = NpConst(a[0])
+                    else:                                   # block_diag of k blocks of shape (p, q): (k p, k q)
+                        o = NpConst((sum(b.shp[0] for b in a), sum(b.shp[1] for b in a)))
+                    made.append((name, a, o))
+                    return o
+                return f
+            vc.I.externals["numpy.ones"] = const("ones")
+            vc.I.externals["scipy.linalg.block_diag"] = const("block_diag")
+            sc = vc.call(f"{TF}:tensor_train", shape, _r)
+            layers, ins, outs = _layers(sc)
+            vc.ensure("single_output", len(outs) == 1)
+            # walk the chain back from the output
+            cur, steps = outs[0] if outs else None, []
+            while cur is not None and cur.cls.name == "SumLayer":
+                prods = list(ins.get(cur, []))
+                steps.append((cur, prods))
+                firsts = [list(ins.get(p, []))[0] for p in prods if len(ins.get(p, [])) == 2]
+                cur = firsts[0] if firsts and all(f is firsts[0] for f in firsts) and len(firsts) == len(prods) else None
+            steps.reverse()
+            vc.ensure("one_contraction_step_per_adjacent_pair_of_variables", len(steps) == _n - 1)
+            if len(steps) != _n - 1:
+                return
+            vc.ensure("chain_starts_at_the_embedding_of_variable_0", cur is not None and cur.cls.name == "EmbeddingLayer" and _is_var(vc, cur, 0) and
+                      vc.must(z3.And(to_z3(vc.attr(cur, "num_states")) == to_z3(shape[0]), to_z3(vc.attr(cur, "num_output_units")) == _r)))
+            used, seen_vars = [], []
+            for i, (s, prods) in enumerate(steps):
+                last = i == _n - 2
+                vc.ensure(f"step{i}.number_of_products", len(prods) == (1 if last else _r))
+                vc.ensure(f"step{i}.sum_units", vc.must(z3.And(to_z3(vc.attr(s, "num_output_units")) == (1 if last else _r), to_z3(vc.attr(s, "num_input_units")) == _r)))
+                for q, p in enumerate(prods):
+                    pin = list(ins.get(p, []))
+                    ok = p.cls.name == "HadamardLayer" and len(pin) == 2 and pin[1].cls.name == "EmbeddingLayer"
+                    vc.ensure(f"step{i}.product{q}.hadamard_of_the_running_vector_and_an_embedding", ok)
+                    if ok:
+                        e = pin[1]
+                        used.append(e)
+                        if _r >= 2:
+                            vc.ensure(f"step{i}.product{q}.embedding_is_over_variable_{i + 1}", _is_var(vc, e, i + 1))
+                            vc.ensure(f"step{i}.product{q}.embedding_states_is_dimension_{i + 1}", vc.attr(e, "num_states") == shape[i + 1])
+                        else:
+                            # rank 1: the train is a plain product of one factor per variable, the order of contraction does not matter
+                            js = [j for j in range(1, _n) if _is_var(vc, e, j)]
+                            vc.ensure(f"step{i}.product{q}.embedding_is_over_one_of_the_remaining_variables_with_its_dimension",
+                                      len(js) == 1 and vc.must(to_z3(vc.attr(e, "num_states")) == to_z3(shape[js[0]])))
+                            seen_vars.extend(js)
+                        vc.ensure(f"step{i}.product{q}.embedding_rank_units", vc.attr(e, "num_output_units") == _r)
+            if _r == 1:
+                vc.ensure("every_variable_contracted_exactly_once", sorted(seen_vars) == list(range(1, _n)))
+            vc.ensure("every_embedding_used_exactly_once", len({id(e) for e in used}) == len(used) and
+                      len(used) + 1 == sum(1 for l in layers if l.cls.name == "EmbeddingLayer"))
+        obligation(f"C20.tensor_train.order{_n}.rank{_r}", "C20", [f"{TF}:tensor_train"])(_h)
